@@ -10,6 +10,8 @@ import (
 	"sync/atomic"
 	"time"
 
+	predis "github.com/samaritan-proxy/samaritan/pb/config/protocol/redis"
+
 	"verif/internal/ev"
 	"verif/internal/fakecluster"
 	"verif/internal/lclock"
@@ -44,6 +46,30 @@ func echoReply(cmd string, args [][]byte) resp.Value {
 		return resp.E("ERR echo " + fmt.Sprintf("%x", echoBytes(args)))
 	}
 	return resp.B(echoBytes(args))
+}
+
+// bigArrayLen recognises keys "A<n>:..." whose reply is an array of n elements.
+func bigArrayLen(key []byte) (int, bool) {
+	if len(key) < 3 || key[0] != 'A' {
+		return 0, false
+	}
+	i := bytes.IndexByte(key, ':')
+	if i < 0 {
+		return 0, false
+	}
+	n, err := strconv.Atoi(string(key[1:i]))
+	if err != nil || n < 0 || n > 100000 {
+		return 0, false
+	}
+	return n, true
+}
+
+func bigArrayReply(key []byte, n int) resp.Value {
+	arr := make([]resp.Value, n)
+	for i := range arr {
+		arr[i] = resp.BS(fmt.Sprintf("%s#%d", key, i))
+	}
+	return resp.A(arr...)
 }
 
 // embeddedInt parses the integer embedded in a key "n<int>:...".
@@ -81,6 +107,9 @@ func echoHandler(n *fakecluster.Node, completed *sync.Map) func(c *fakecluster.C
 		if sumCmds[cmd] {
 			return fakecluster.Reply{Raw: resp.Encode(resp.I(embeddedInt(key)))}, true
 		}
+		if n, ok := bigArrayLen(key); ok {
+			return fakecluster.Reply{Raw: resp.Encode(bigArrayReply(key, n))}, true
+		}
 		return fakecluster.Reply{Raw: resp.Encode(echoReply(cmd, args))}, true
 	}
 }
@@ -98,7 +127,7 @@ type c01Req struct {
 var c01SimpleCmds = []string{"GET", "get", "SET", "set", "hget", "HSET", "lrange", "ZADD", "expire", "Append", "sadd", "TTL", "hmget", "getset", "INCR", "incrby", "lpush", "zrangebyscore", "pfadd", "georadius", "LSET", "hmset", "setex", "ltrim", "HINCRBY"}
 var c01Unsupported = []string{"KEYS", "multi", "EXEC", "subscribe", "CLUSTER", "flushall", "blpop", "nosuchcmd", "wait", "migrate"}
 
-func c01GenReq(rnd *rand.Rand, connID, seq int, hostile bool) c01Req {
+func c01GenReq(rnd *rand.Rand, connID, seq int, hostile, banned bool) c01Req {
 	uid := fmt.Sprintf("c%dq%d", connID, seq)
 	tag := ""
 	if rnd.Intn(4) == 0 {
@@ -131,12 +160,54 @@ func c01GenReq(rnd *rand.Rand, connID, seq int, hostile bool) c01Req {
 			return c01Req{class: "long-unsupported-name", raw: resp.Cmd(bytes.Repeat([]byte("Z"), 5000), key(0)), anyError: true}
 		}
 	}
+	if big := rnd.Intn(1500); big < 3 {
+		switch big {
+		case 0: // a multi-key request with more arguments than any pre-allocation bound
+			n := 1030 + rnd.Intn(1500)
+			args := [][]byte{bs("MGET")}
+			want := make([]resp.Value, n)
+			for i := 0; i < n; i++ {
+				k := []byte(fmt.Sprintf("%s.b%d", uid, i))
+				args = append(args, k)
+				want[i] = resp.B(echoBytes([][]byte{bs("get"), k}))
+			}
+			w := resp.A(want...)
+			return c01Req{class: "big-mget", raw: resp.Cmd(args...), exact: &w}
+		case 1:
+			n := 1030 + rnd.Intn(1500)
+			args := [][]byte{bs("DEL")}
+			total := int64(0)
+			for i := 0; i < n; i++ {
+				v := int64(rnd.Intn(2))
+				total += v
+				args = append(args, []byte(fmt.Sprintf("n%d:%s.b%d", v, uid, i)))
+			}
+			w := resp.I(total)
+			return c01Req{class: "big-del", raw: resp.Cmd(args...), exact: &w}
+		default: // a backend reply that is a long array
+			n := []int{1023, 1024, 1025, 1500, 4000}[rnd.Intn(5)]
+			k := []byte(fmt.Sprintf("A%d:%s", n, uid))
+			w := bigArrayReply(k, n)
+			return c01Req{class: "big-array-reply", raw: resp.Cmd(bs("LRANGE"), k, bs("0"), bs("-1")), exact: &w, keys: []string{string(k)}}
+		}
+	}
+	if banned && rnd.Intn(12) == 0 {
+		// disabled under compression: answered by the proxy's filter chain with an error, nothing reaches a backend
+		name := []string{"APPEND", "setbit", "GETBIT", "SetRange", "getrange", "EVAL"}[rnd.Intn(6)]
+		return c01Req{class: "banned-under-compression", raw: resp.Cmd(bs(name), key(0), bs("1"), key(0)), anyError: true}
+	}
 	switch {
 	case pick < 45: // simple keyed command
 		cmd := c01SimpleCmds[rnd.Intn(len(c01SimpleCmds))]
 		args := [][]byte{bs(cmd), key(0)}
 		for i := rnd.Intn(4); i > 0; i-- {
 			args = append(args, val())
+		}
+		if banned {
+			switch strings.ToLower(cmd) {
+			case "append", "eval", "setbit", "getbit", "setrange", "getrange":
+				return c01Req{class: "banned-under-compression", raw: resp.Cmd(args...), anyError: true}
+			}
 		}
 		want := echoReply(strings.ToLower(cmd), args)
 		return c01Req{class: "simple-" + string(want.Kind), raw: resp.Cmd(args...), exact: &want, keys: []string{string(args[1])}}
@@ -213,6 +284,9 @@ func c01GenReq(rnd *rand.Rand, connID, seq int, hostile bool) c01Req {
 	default: // eval (key is argument 3)
 		k := key(0)
 		args := [][]byte{bs("EVAL"), bs("return 1"), bs("1"), k, val()}
+		if banned {
+			return c01Req{class: "banned-under-compression", raw: resp.Cmd(args...), anyError: true}
+		}
 		w := resp.B(echoBytes(args))
 		return c01Req{class: "eval", raw: resp.Cmd(args...), exact: &w, keys: []string{string(k)}}
 	}
@@ -243,6 +317,9 @@ func genFrags(rnd *rand.Rand, n int) ([]int, string) {
 		}
 		return f, "1byte"
 	case 2:
+		if n > 20000 {
+			break
+		}
 		var f []int
 		for t := 0; t < n; {
 			k := 1 + rnd.Intn(7)
@@ -273,7 +350,7 @@ type c01Stats struct {
 }
 
 // c01Workload runs nconns connections x npipes pipelines against a fresh service.
-func c01Workload(r *ev.Run, s *sutc.SUT, seed int64, nconns, npipes int, label string, st *c01Stats) {
+func c01Workload(r *ev.Run, s *sutc.SUT, seed int64, nconns, npipes int, label string, st *c01Stats, compression bool) {
 	rnd := rand.New(rand.NewSource(seed))
 	cl, err := fakecluster.New(3+rnd.Intn(4), 0)
 	if err != nil {
@@ -307,7 +384,11 @@ func c01Workload(r *ev.Run, s *sutc.SUT, seed int64, nconns, npipes int, label s
 			return 0
 		}
 	}
-	svc, err := startRedisSvc(s, cl, cl.Addrs(), RedisOpts{})
+	opts := RedisOpts{}
+	if compression {
+		opts.Compression = &predis.Compression{Enable: true, Algorithm: predis.Compression_SNAPPY, Threshold: 1 << 30}
+	}
+	svc, err := startRedisSvc(s, cl, cl.Addrs(), opts)
 	if err != nil {
 		r.Internal("%s: %v", label, err)
 		return
@@ -378,11 +459,14 @@ func c01Workload(r *ev.Run, s *sutc.SUT, seed int64, nconns, npipes int, label s
 				var data []byte
 				classes := map[string]bool{}
 				for i := 0; i < depth; i++ {
-					q := c01GenReq(crnd, connID, seq, hostile && crnd.Intn(3) == 0)
+					q := c01GenReq(crnd, connID, seq, hostile && crnd.Intn(3) == 0, compression)
 					seq++
 					reqs = append(reqs, q)
 					data = append(data, q.raw...)
 					classes[q.class] = true
+					if strings.HasPrefix(q.class, "big-") || strings.HasPrefix(q.class, "banned") {
+						r.Count("class:"+q.class, 1)
+					}
 				}
 				// sentinel: proves no extra and no missing reply
 				sk := []byte(fmt.Sprintf("sentinel.c%d.%d", connID, seq))
@@ -505,7 +589,8 @@ func c01(r *ev.Run) {
 			r.Internal("start sut: %v", err)
 			return
 		}
-		c01Workload(r, s, r.Seed*31+int64(round), nconns, npipes, fmt.Sprintf("plain-%d", round), st)
+		c01Workload(r, s, r.Seed*31+int64(round), nconns, npipes, fmt.Sprintf("plain-%d", round), st, false)
+		c01Workload(r, s, r.Seed*37+int64(round), nconns, npipes/3, fmt.Sprintf("compression-%d", round), st, true)
 		s.Close()
 	}
 	// race tier: same workload at 1/5 volume on the -race SUT
@@ -514,7 +599,7 @@ func c01(r *ev.Run) {
 		r.Internal("start race sut: %v", err)
 		return
 	}
-	c01Workload(r, s, r.Seed*31+977, nconns, (npipes+4)/5, "race", st)
+	c01Workload(r, s, r.Seed*31+977, nconns, (npipes+4)/5, "race", st, false)
 	races := raceReports(s, []string{"proc/redis/request.go"})
 	s.Close()
 	for _, rr := range races {
@@ -528,4 +613,7 @@ func c01(r *ev.Run) {
 	r.Count("reshards", st.reshards)
 	r.Require("pipelines_with_inverted_backend_completion", 5)
 	r.Require("redirected_requests", 1)
+	for _, c := range []string{"big-mget", "big-del", "big-array-reply", "banned-under-compression"} {
+		r.Require("class:"+c, 3)
+	}
 }
